@@ -798,8 +798,12 @@ func (config *Config) resolve() (changedFields set.Set[string], err error) {
 	// expected and "raw" parameters, which may be used by plugins.
 	nameToSource := make(map[string]Source)
 	for _, source := range SourcesInDescendingOrder {
+		// Visit the keys in sorted order: two keys that differ only in case name the same
+		// parameter, so the result must not depend on Go's randomised map iteration order.
+		rawConfig := config.sourceToRawConfig[source]
 	valueLoop:
-		for rawName, rawValue := range config.sourceToRawConfig[source] {
+		for _, rawName := range slices.Sorted(maps.Keys(rawConfig)) {
+			rawValue := rawConfig[rawName]
 			lowerCaseName := strings.ToLower(rawName)
 			currentSource := nameToSource[lowerCaseName]
 			param, ok := knownParams[lowerCaseName]
